@@ -9,6 +9,7 @@ import (
 	"fmt"
 	"go/types"
 	"strings"
+	"time"
 )
 
 const searchGenSrc = `
@@ -101,6 +102,87 @@ func gocvGen(rng *rand.Rand, t reflect.Type, depth int) reflect.Value {
 	return v
 }
 
+// gocvKey writes a canonical deep rendering of a generated value (pointers followed, never printed as addresses), so
+// that two generated inputs can be compared for equality: the search counts DISTINCT inputs by a hash of it.
+func gocvKey(b *strings.Builder, v reflect.Value, depth int) {
+	if depth > 10 {
+		b.WriteString("~")
+		return
+	}
+	switch v.Kind() {
+	case reflect.Bool:
+		fmt.Fprintf(b, "%t", v.Bool())
+	case reflect.Int, reflect.Int8, reflect.Int16, reflect.Int32, reflect.Int64:
+		fmt.Fprintf(b, "%d", v.Int())
+	case reflect.Uint, reflect.Uint8, reflect.Uint16, reflect.Uint32, reflect.Uint64, reflect.Uintptr:
+		fmt.Fprintf(b, "%d", v.Uint())
+	case reflect.Float32, reflect.Float64:
+		fmt.Fprintf(b, "%g", v.Float())
+	case reflect.String:
+		fmt.Fprintf(b, "%q", v.String())
+	case reflect.Ptr, reflect.Interface:
+		if v.IsNil() {
+			b.WriteString("nil")
+			return
+		}
+		b.WriteString("&")
+		gocvKey(b, v.Elem(), depth+1)
+	case reflect.Slice, reflect.Array:
+		if v.Kind() == reflect.Slice && v.IsNil() {
+			b.WriteString("nil")
+			return
+		}
+		b.WriteString("[")
+		for i := 0; i < v.Len(); i++ {
+			gocvKey(b, v.Index(i), depth+1)
+			b.WriteString(",")
+		}
+		b.WriteString("]")
+	case reflect.Struct:
+		if v.Type() == reflect.TypeOf(time.Time{}) && v.CanInterface() {
+			tm := v.Interface().(time.Time)
+			_, off := tm.Zone()
+			fmt.Fprintf(b, "T%d+%d", tm.UnixNano(), off)
+			return
+		}
+		b.WriteString("{")
+		for i := 0; i < v.NumField(); i++ {
+			gocvKey(b, v.Field(i), depth+1)
+			b.WriteString(";")
+		}
+		b.WriteString("}")
+	case reflect.Map:
+		if v.IsNil() {
+			b.WriteString("nil")
+			return
+		}
+		var es []string
+		it := v.MapRange()
+		for it.Next() {
+			var eb strings.Builder
+			gocvKey(&eb, it.Key(), depth+1)
+			eb.WriteString(":")
+			gocvKey(&eb, it.Value(), depth+1)
+			es = append(es, eb.String())
+		}
+		sort.Strings(es)
+		b.WriteString("map[" + strings.Join(es, ",") + "]")
+	default:
+		b.WriteString("?")
+	}
+}
+
+func gocvHash(vs ...any) uint64 {
+	var b strings.Builder
+	for _, x := range vs {
+		gocvKey(&b, reflect.ValueOf(x), 0)
+		b.WriteString("|")
+	}
+	h := fnv.New64a()
+	h.Write([]byte(b.String()))
+	return h.Sum64()
+}
+
 func gocvMake[T any](seed int64) T {
 	var zero T
 	return gocvGen(rand.New(rand.NewSource(seed)), reflect.TypeOf(&zero).Elem(), 0).Interface().(T)
@@ -148,7 +230,7 @@ func searchable(t types.Type, depth int) bool {
 }
 
 // searchFunction runs the bounded concrete search for every `ensures` clause of a function under contract.
-func searchFunction(ctx *Context, fr *FuncResult, prop string, outDir string, iterations int) (confirmed bool, log string) {
+func searchFunction(ctx *Context, fr *FuncResult, prop string, outDir string, iterations int, testTimeout time.Duration) (confirmed bool, log string) {
 	fn := fr.fn
 	if fn == nil || fn.Parent() != nil || fn.Pkg == nil || len(fr.fc.posts) == 0 {
 		return false, "no bounded search for this function (closure, or no ensures clause)"
@@ -161,7 +243,7 @@ func searchFunction(ctx *Context, fr *FuncResult, prop string, outDir string, it
 		}
 	}
 	sp := ctx.pkgs[fr.fc.PkgPath]
-	imps := map[string]string{"testing": "testing", "math/rand": "rand", "reflect": "reflect", "unsafe": "unsafe", "time": "time", "fmt": "fmt"}
+	imps := map[string]string{"testing": "testing", "math/rand": "rand", "reflect": "reflect", "unsafe": "unsafe", "time": "time", "fmt": "fmt", "strings": "strings", "sort": "sort", "hash/fnv": "fnv"}
 	qual := func(p *types.Package) string {
 		if p == fn.Pkg.Pkg {
 			return ""
@@ -288,9 +370,16 @@ import (
 // Bounded concrete search for %s: %d generated inputs, oracle = the lowered contract clauses.
 func TestGocvReplay(t *testing.T) {
 	rng := rand.New(rand.NewSource(%d))
-	tried := 0
+	tried, generated := 0, 0
+	distinct := map[uint64]struct{}{}
+	// printed whichever way the search ends (t.Fatalf runs deferred calls): what was actually explored
+	defer func() {
+		t.Logf("GOCV-SEARCH-STATS generated=%%d satisfied=%%d distinct=%%d", generated, tried, len(distinct))
+	}()
 	for i := 0; i < %d; i++ {
-%s%s		func() {
+		generated++
+%s%s		distinct[gocvHash(%s)] = struct{}{}
+		func() {
 			defer func() {
 				if x := recover(); x != nil {
 					_ = x // a panic of the real code on an input the precondition allows is not judged here
@@ -302,8 +391,8 @@ func TestGocvReplay(t *testing.T) {
 	}
 	t.Logf("REPLAY-NOT-CONFIRMED (bounded search: %%d inputs satisfied the precondition, no clause violated)", tried)
 }
-`, fn.Pkg.Pkg.Name(), imp.String(), searchGenSrc, fnDisplayName(fn), iterations, 20260921, iterations, decls.String(), pre, assign, call, under, checks.String())
-	return runReplayTest(ctx, fr.fc.PkgPath, src, outDir)
+`, fn.Pkg.Pkg.Name(), imp.String(), searchGenSrc, fnDisplayName(fn), iterations, 20260921, iterations, decls.String(), pre, strings.Join(prefixAll("old_", names), ", "), assign, call, under, checks.String())
+	return runReplayTestTimeout(ctx, fr.fc.PkgPath, src, outDir, testTimeout)
 }
 
 func prefixAll(p string, xs []string) []string {
